@@ -356,12 +356,14 @@ def decode_text_digits(code, s):
     they leave between digits are removed.  Nothing else is changed, so a digit that is missing stays missing."""
     s = fold_digits(s)
     if code == "LaTeX" and "\\" in s:
-        s = _TEX_STYLE_RX.sub("\x01", s)                      # \x01 = "the next character has a typeface"
-        run = r"\x01[0-9](?:\s*\x01[0-9])*"
-        # a styled number = styled digits, optionally a decimal mark (plain or styled) and more styled digits; plain digits never join it
-        # (a list comma is followed by a blank, the decimal mark is not)
-        s = re.sub(r"%s(?:\s*\x01?[.,]%s)?" % (run, run), lambda m: " " + re.sub(r"[\x01\s]", "", m.group(0)) + " ", s)
-        s = s.replace("\x01", " ")
+        names = {}
+        # \x01 + one private character per alphabet command = "the next character has THIS typeface"
+        s = _TEX_STYLE_RX.sub(lambda m: "\x01" + chr(0xE100 + names.setdefault(m.group(0).strip(), len(names))), s)
+        # a styled number = digits of ONE typeface, optionally a decimal mark (plain or in that typeface) and more digits of the same typeface;
+        # plain digits and digits of another typeface never join it (the mark between two differently styled numbers is a list comma)
+        rx = re.compile(r"(\x01.)[0-9](?:\s*\1[0-9])*(?:\s*(?:\1)?[.,]\1[0-9](?:\s*\1[0-9])*)?")
+        s = rx.sub(lambda m: " " + re.sub(r"\x01.|\s", "", m.group(0)) + " ", s)
+        s = re.sub(r"\x01.", " ", s)
     return s
 
 
